@@ -385,7 +385,8 @@ Lemma mkref_denotes : forall E c u var n m nm,
   ntype n = GRef nm (Some m).
 Proof.
   intros E c u var n m nm Hmk Hg Hn. unfold denotes_guard in Hg. rewrite Hn in Hg.
-  apply andb_true_iff in Hg; destruct Hg as [Hdot _]. apply negb_true_iff in Hdot.
+  apply andb_true_iff in Hg; destruct Hg as [Hg _]. apply andb_true_iff in Hg; destruct Hg as [Hshape Hrm].
+  apply String.eqb_eq in Hrm.
   assert (Hq : qualname E c = nm /\ module_attr E c = Some m).
   { destruct c as [s| | | |l|g a|sp ms|k|m' n' t|m' n' t|m' n' bd|t|a mo]; cbn in Hn; try discriminate.
     - inversion Hn; subst; cbn; auto.
@@ -393,8 +394,13 @@ Proof.
     - inversion Hn; subst; cbn; auto.
     - inversion Hn; subst; cbn; auto.
     - inversion Hn; subst; cbn; auto. }
-  destruct Hq as [Hq Hm]. unfold mkref, ref_parts in Hmk. rewrite Hq, (split_first_none _ _ Hdot), Hm in Hmk.
-  inversion Hmk; subst; cbn. rewrite (remove_all_id _ _ Hdot). reflexivity.
+  destruct Hq as [Hq Hm]. unfold mkref, ref_parts in Hmk. rewrite Hq in Hmk.
+  destruct (split_first dot nm) as [[pre r]|] eqn:Hsp.
+  - (* a dotted name: only classes pass the guard *)
+    destruct (is_class c) eqn:Hcls.
+    + rewrite Hm in Hmk. inversion Hmk; subst; cbn. rewrite Hrm. reflexivity.
+    + cbn in Hshape. apply negb_true_iff in Hshape. rewrite (split_first_none _ _ Hshape) in Hsp. discriminate.
+  - rewrite Hm in Hmk. inversion Hmk; subst; cbn. rewrite Hrm. reflexivity.
 Qed.
 
 (* ------------------------------------------------------------------------------------------- *)
